@@ -222,13 +222,16 @@ func (vm *VM) Run(program *Program, env interface{}) (out interface{}, err error
 			a := vm.pop()
 			min := toInt(a)
 			max := toInt(b)
-			size := max - min + 1
-			if max < min {
-				// An empty range creates no elements.
-				size = 0
+			size := 0 // An empty range (max < min) creates no elements.
+			if max >= min {
+				size = max - min + 1
+				if size <= 0 {
+					// max-min+1 overflowed: more elements than any budget.
+					panic("memory budget exceeded")
+				}
 			}
 			vm.verifAllocReq(size)
-			if size < 0 || size >= vm.limit-vm.memory {
+			if size >= vm.limit-vm.memory {
 				panic("memory budget exceeded")
 			}
 			vm.push(makeRange(min, max))
